@@ -119,6 +119,57 @@ theorem parseCategoryName_keyTok (name key : Str) (hn : NameOk name) :
   have hh : ((keyTok name key).head? == some '_') = true := by simp [keyTok]
   simp only [parseCategoryName, hh, hd, if_true, ht, List.tail_cons]
 
+theorem parseCategoryName_keyTok_app (name key rest : Str) (hn : NameOk name) :
+    parseCategoryName (keyTok name key ++ rest) = some name := by
+  have hnd : '.' ∉ '_' :: name := by
+    intro hm
+    rcases List.mem_cons.mp hm with e | e
+    · simp at e
+    · exact (hn _ e).2.1 rfl
+  have e : keyTok name key ++ rest = ('_' :: name) ++ '.' :: (key ++ rest) := by simp [keyTok]
+  have hd : has '.' (keyTok name key ++ rest) = true := by rw [e]; simp [has_iff]
+  have ht := takeWhile_ne_app '.' ('_' :: name) (key ++ rest) hnd
+  rw [← e] at ht
+  have hh : ((keyTok name key ++ rest).head? == some '_') = true := by simp [keyTok]
+  simp only [parseCategoryName, hh, hd, if_true, ht, List.tail_cons]
+
+/-- What the block and file scanners need to know about the written lines of one category. -/
+structure CatLines (name : Str) (W : List Str) : Prop where
+  nonl : ∀ w ∈ W, '\n' ∉ w
+  nonempty : ∀ w ∈ W, isEmptyLine w = false
+  nodata : ∀ w ∈ W, parseDataBlockName w = none
+  start : ∃ l0 rest, W = l0 :: rest ∧
+    ((isLoopStart l0 = true ∧ ∃ k1 rest', rest = k1 :: rest' ∧ k1 ≠ [] ∧ parseCategoryName k1 = some name) ∨
+     (isLoopStart l0 = false ∧ parseCategoryName l0 = some name))
+  tail : ∀ w ∈ W.tail, isLoopStart w = false ∧ (parseCategoryName w = none ∨ parseCategoryName w = some name)
+
+theorem isPrefixOf_app_space (p t r : Str) (hp : ' ' ∉ p) (h : p.isPrefixOf (t ++ ' ' :: r) = true) :
+    p.isPrefixOf t = true := by
+  induction p generalizing t with
+  | nil => simp
+  | cons a p ih =>
+    cases t with
+    | nil =>
+      simp only [List.nil_append, List.isPrefixOf, Bool.and_eq_true, beq_iff_eq] at h
+      exact absurd (h.1 ▸ List.mem_cons_self) hp
+    | cons b t =>
+      simp only [List.cons_append, List.isPrefixOf, Bool.and_eq_true] at h ⊢
+      exact ⟨h.1, ih t (fun hm => hp (List.mem_cons_of_mem _ hm)) h.2⟩
+
+theorem padded_not_prefix (p : Str) (hp : ' ' ∉ p) (t : Str) (n : Nat) (rest : List (Str × Nat))
+    (h : p.isPrefixOf t = false) : p.isPrefixOf (padded ((t, n) :: rest)) = false := by
+  cases rest with
+  | nil => simpa [padded] using h
+  | cons r rest' =>
+    apply Bool.eq_false_iff.mpr
+    intro hh
+    have e : padded ((t, n) :: r :: rest') = t ++ ' ' :: (List.replicate n ' ' ++ padded (r :: rest')) := by
+      simp [padded, List.replicate_succ]
+    rw [e] at hh
+    have := isPrefixOf_app_space p t _ hp hh
+    rw [h] at this
+    exact absurd this (by simp)
+
 /-! ## chunk / transpose -/
 
 theorem chunk_flatten {α : Type} (k : Nat) (hk : 0 < k) (rows : List (List α)) (h : ∀ r ∈ rows, r.length = k)
@@ -245,9 +296,9 @@ theorem transpose_row_mem {α : Type} (n : Nat) (M : List (List α)) :
     · exact h2 p hp
 
 /-- building the dict from distinct keys keeps the list -/
-theorem foldl_dictSet_nodup {α : Type} (kvs : List (Str × α)) (h : (kvs.map (·.1)).Nodup) :
+theorem foldl_dictSet_nodup {κ α : Type} [BEq κ] [LawfulBEq κ] (kvs : List (κ × α)) (h : (kvs.map (·.1)).Nodup) :
     kvs.foldl (fun d kv => dictSet kv.1 kv.2 d) [] = kvs := by
-  have gen : ∀ (pre : List (Str × α)), ((pre ++ kvs).map (·.1)).Nodup →
+  have gen : ∀ (pre : List (κ × α)), ((pre ++ kvs).map (·.1)).Nodup →
       kvs.foldl (fun d kv => dictSet kv.1 kv.2 d) pre = pre ++ kvs := by
     induction kvs with
     | nil => intro pre _; simp
